@@ -156,15 +156,3 @@ pub proof fn lemma_dc2_one_sub_lo(x: int, d: int)
 {
     lemma_dc2_one_sub(x, d);
 }
-
-/// C13 form of the rem_* results: (x << shift) mod (d << shift) is (x mod d) << shift, a residue of [0, d) scaled by the shift
-pub proof fn lemma_dc2_scaled(x: int, o: int, p: int, dn: int)
-    requires x >= 0, p >= 1, dn > 0, dn % p == 0, o == dn / p,
-    ensures (x * p) % dn == (x % o) * p, 0 <= x % o < o, o >= 1,
-{
-    let rs = (x * p) % dn;
-    lemma_dc_rem_unshift(x, o, p, dn, rs);
-    lemma_dc2_unique_r(x, o, rs / p);
-    vstd::arithmetic::div_mod::lemma_fundamental_div_mod(rs, p);
-    assert(p * (rs / p) == (rs / p) * p) by (nonlinear_arith);
-}
